@@ -317,8 +317,11 @@ class EngineCore:
         raise EngineError(f"cannot convert global {r!r}")
 
     def external_value(self, dotted: str) -> Any:
-        if dotted in self.R.external_map:
-            tgt = self.R.external_map[dotted]
+        cur = getattr(self, "cur_contract", None)
+        local = cur.env.get("external", {}) if cur is not None else {}
+        if dotted in local or dotted in self.R.external_map:
+            # the contract under verification may name the model an external name stands for in ITS function (env `external`)
+            tgt = local.get(dotted) or self.R.external_map[dotted]
             if tgt.startswith("spec."):
                 return Builtin(tgt)
             modname, _, attr = tgt.rpartition(".")
